@@ -802,8 +802,9 @@ class Fxp():
                 val = val / self.scale
 
             # update vdtype due scaling tranformation
-            if vdtype == int and (isinstance(self.bias, (float, np.floating)) or self.scale != 1):
-                vdtype = float
+            if (vdtype == int or (vdtype is not None and vdtype != complex and np.issubdtype(vdtype, np.integer))) \
+                and (isinstance(self.bias, (float, np.floating)) or self.scale != 1):
+                vdtype = float      # (NumPy integer types too: a list of np.uint64 keeps that type as its value type)
             
             # check if it is a numpy array
             if not isinstance(val, (np.ndarray, np.generic)):
